@@ -182,15 +182,21 @@ def decl(d, intent=None):
             for lo, hi in d["dims"]) + ")"
     if intent:
         s += f", intent({intent})"
-    return s + " :: " + d["name"]
+    if d.get("save") == "attr":
+        s += ", save"
+    s += " :: " + d.get("disp", d["name"])
+    if d.get("initval"):
+        s += " = " + d["initval"]
+    return s
 
 
-def routine(name, args, decls, body, ind=1, kind="subroutine", prefix="", suffix=""):
+def routine(name, args, decls, body, ind=1, kind="subroutine", prefix="", suffix="", spec=()):
     '''decls: list of (decl, intent or None) in declaration order'''
     p = "  " * ind
     out = [p + (prefix + " " if prefix else "") + f"{kind} {name}(" + ", ".join(args) + ")" + suffix]
     for d, intent in decls:
         out.append(p + "  " + decl(d, intent))
+    out += [p + "  " + line for line in spec]       # e.g. SAVE statements
     out += stmts(body, ind + 1)
     out.append(p + f"end {kind} {name}")
     return out
